@@ -8,7 +8,10 @@ require (
 )
 
 require (
+	github.com/cnotch/queue v0.0.0-20201224060551-4191569ce8f6 // indirect
 	github.com/cnotch/xlog v0.0.0-20201208005456-cfda439cd3a0 // indirect
+	github.com/pion/randutil v0.1.0 // indirect
+	github.com/pion/rtp v1.6.2 // indirect
 	golang.org/x/crypto v0.0.0-20201221181555-eec23a3978ad // indirect
 )
 
